@@ -79,6 +79,15 @@ class AbsEval:
             return Kind('tuple' if isinstance(e, ast.Tuple) else 'list',
                         empty=not e.elts, truthy=bool(e.elts))
         if isinstance(e, ast.Dict):
+            if e.keys and all(k_ is not None for k_ in e.keys):
+                # a display of literals is a literal (lookup tables: ``{...}[k]``, ``k in {...}``)
+                ks = [self.eval(k_, _depth + 1) for k_ in e.keys]
+                vs = [self.eval(v_, _depth + 1) for v_ in e.values]
+                if all(isinstance(x, Const) for x in ks + vs):
+                    try:
+                        return Const({k_.v: v_.v for k_, v_ in zip(ks, vs)})
+                    except TypeError:
+                        pass
             return Kind('dict', empty=not e.keys, truthy=bool(e.keys))
         if isinstance(e, ast.JoinedStr):
             # an f-string of literals folds to a literal (plain {x} / {x!s} fields only)
@@ -304,6 +313,13 @@ class AbsEval:
                     return Kind('int', truthy=True, positive=True)
                 return None
             if f.id in ('str', 'bytes', 'int', 'float', 'list', 'dict', 'bool'):
+                if f.id == 'bool' and len(e.args) == 1 and not e.keywords:
+                    v = self.eval(e.args[0], _depth + 1)
+                    if isinstance(v, Const):
+                        return Const(bool(v.v))
+                    if isinstance(v, Kind) and v.attrs.get('truthy') is not None:
+                        return Const(bool(v.attrs['truthy']))
+                    return Kind('bool')
                 if f.id == 'bytes' and len(e.args) == 1:
                     v = self.eval(e.args[0], _depth + 1)
                     if isinstance(v, Kind) and v.k in ('bytes', 'bytearray'):
